@@ -3,107 +3,27 @@ package main
 import (
 	"context"
 	"fmt"
-	"os"
-	"strings"
 
 	"github.com/tetratelabs/wazero"
-	"github.com/tetratelabs/wazero/api"
 	"github.com/tetratelabs/wazero/experimental"
-	"github.com/tetratelabs/wazero/imports/wasi_snapshot_preview1"
-
-	"verifharness/plan"
+	"verifharness/wasmb"
 )
 
-type lf struct{}
-
-func (lf) NewFunctionListener(def api.FunctionDefinition) experimental.FunctionListener { return l{} }
-
-type l struct{}
-
-func (l) Before(ctx context.Context, mod api.Module, def api.FunctionDefinition, params []uint64, si experimental.StackIterator) {
-	var chain []string
-	for si.Next() {
-		chain = append(chain, si.Function().Definition().DebugName())
-	}
-	fmt.Printf("  before mod=%q def=%s/%s params=%v chain=%v\n", mod.Name(), def.ModuleName(), def.DebugName(), params, chain)
-}
-func (l) After(ctx context.Context, mod api.Module, def api.FunctionDefinition, results []uint64) {
-	fmt.Printf("  after  mod=%q def=%s results=%v\n", mod.Name(), def.DebugName(), results)
-}
-func (l) Abort(ctx context.Context, mod api.Module, def api.FunctionDefinition, err error) {
-	fmt.Printf("  abort  mod=%q def=%s err=%v\n", mod.Name(), def.DebugName(), strings.SplitN(err.Error(), "\n", 2)[0])
-}
-
 func main() {
-	for _, eng := range []string{"interpreter", "compiler"} {
-		fmt.Println("=====", eng)
-		ctx := experimental.WithFunctionListenerFactory(context.Background(), lf{})
-		cfg := wazero.NewRuntimeConfigInterpreter()
-		if eng == "compiler" {
-			cfg = wazero.NewRuntimeConfigCompiler()
-		}
-		rt := wazero.NewRuntimeWithConfig(ctx, cfg)
-		wasi_snapshot_preview1.MustInstantiate(context.Background(), rt)
-		var hook func(ctx context.Context, mod api.Module, tag, v uint32) uint32
-		_, err := rt.NewHostModuleBuilder("env").NewFunctionBuilder().WithGoModuleFunction(api.GoModuleFunc(func(ctx context.Context, mod api.Module, stack []uint64) {
-			stack[0] = uint64(hook(ctx, mod, uint32(stack[0]), uint32(stack[1])))
-		}), []api.ValueType{api.ValueTypeI32, api.ValueTypeI32}, []api.ValueType{api.ValueTypeI32}).Export("h").Instantiate(ctx)
-		if err != nil {
-			panic(err)
-		}
-		pa := &plan.Plan{Name: "pa", Funcs: []plan.Func{
-			{Atoms: []plan.Atom{{K: plan.AStore, A: 0, B: 7}, {K: plan.ACall, A: 1, B: 1}}},
-			{Atoms: []plan.Atom{{K: plan.AHost, A: 1}, {K: plan.AStore, A: 1, B: 9}}},
-			{Atoms: []plan.Atom{{K: plan.AExit, A: 3}}},
-			{Atoms: []plan.Atom{{K: plan.AStore, A: 2, B: 11}}},
-		}}
-		pb := &plan.Plan{Name: "pb", NImports: 4, ImportFrom: "a", Funcs: []plan.Func{
-			{Atoms: []plan.Atom{{K: plan.ACallImp, A: 3, B: 0}}},
-			{Atoms: []plan.Atom{{K: plan.ACallImp, A: 2, B: 0}}},
-		}}
-		ca, err := rt.CompileModule(ctx, pa.Encode())
-		if err != nil {
-			panic(err)
-		}
-		cb, err := rt.CompileModule(ctx, pb.Encode())
-		if err != nil {
-			panic(err)
-		}
-		a, err := rt.InstantiateModule(ctx, ca, wazero.NewModuleConfig().WithName("a"))
-		if err != nil {
-			panic(err)
-		}
-		b, err := rt.InstantiateModule(ctx, cb, wazero.NewModuleConfig().WithName("b"))
-		if err != nil {
-			panic(err)
-		}
-		hook = func(ctx context.Context, mod api.Module, tag, v uint32) uint32 { return v*3 + tag }
-		fmt.Println("call a.f0(5):")
-		r, err := a.ExportedFunction("f0").Call(ctx, 5)
-		fmt.Println(" ->", r, err)
-		fmt.Println("host closes module w/o panic, a.f0(5):")
-		a2, _ := rt.InstantiateModule(ctx, ca, wazero.NewModuleConfig().WithName("a2"))
-		hook = func(ctx context.Context, mod api.Module, tag, v uint32) uint32 {
-			mod.CloseWithExitCode(ctx, 9)
-			return 1
-		}
-		r, err = a2.ExportedFunction("f0").Call(ctx, 5)
-		fmt.Println(" ->", r, err)
-		v, _ := a2.Memory().ReadUint32Le(8)
-		fmt.Println("  cell1 =", v, "closed:", a2.IsClosed())
-		r, err = a2.ExportedFunction("f0").Call(ctx, 5)
-		fmt.Println(" again ->", r, err)
-		fmt.Println("b.f1 -> a.f2 -> proc_exit(3):")
-		r, err = b.ExportedFunction("f1").Call(ctx, 5)
-		fmt.Println(" ->", r, err, "a closed:", a.IsClosed(), "b closed:", b.IsClosed())
-		fmt.Println("b.f0 -> a.f3 (a closed):")
-		r, err = b.ExportedFunction("f0").Call(ctx, 5)
-		fmt.Println(" ->", r, err)
-		v, _ = a.Memory().ReadUint32Le(16)
-		fmt.Println("  a.cell2 =", v)
-		r, err = a.ExportedFunction("f3").Call(ctx, 5)
-		fmt.Println(" a.f3 direct ->", r, err)
-		rt.Close(ctx)
+	ctx := context.Background()
+	m := &wasmb.Module{}
+	c := &wasmb.Code{}
+	c.I32Const(1)
+	m.AddFunc(nil, []wasmb.ValType{wasmb.I32}, nil, c.B, "one")
+	rt := wazero.NewRuntimeWithConfig(ctx, wazero.NewRuntimeConfigInterpreter())
+	cm, _ := rt.CompileModule(ctx, m.Encode())
+	var cnts [3]int
+	for i := 0; i < 3; i++ {
+		i := i
+		nctx := experimental.WithCloseNotifier(ctx, experimental.CloseNotifyFunc(func(context.Context, uint32) { cnts[i]++ }))
+		_, err := rt.InstantiateModule(nctx, cm, wazero.NewModuleConfig().WithName(""))
+		fmt.Println(err)
 	}
-	os.Exit(0)
+	rt.Close(ctx)
+	fmt.Println(cnts)
 }
